@@ -1052,7 +1052,23 @@ func main() {
 						}
 					}
 
-					// TODO Periodic set
+					// Periodic set: a "relative:<n>:set" rule fires on every tick that is a multiple of n
+					periods := make([]uint64, 0, len(sdrive.PerSet))
+					for every := range sdrive.PerSet {
+						periods = append(periods, every)
+					}
+					sort.Slice(periods, func(a, b int) bool { return periods[a] < periods[b] })
+					for _, every := range periods {
+						if every == 0 || i%every != 0 {
+							continue
+						}
+						for k, val := range sdrive.PerSet[every] {
+							*sdrive.Injectables[k] = val
+							if inIdx, ok := sdrive.NeedValid[k]; ok {
+								vm.InputsValid[inIdx] = true
+							}
+						}
+					}
 
 					if *emit_dot {
 						gvfile := bmach.Dot(conf, "", vm, pstatevm)
